@@ -66,10 +66,6 @@ Definition check_halfface_ordering (s : mesh) (hfs : list nat) : bool :=
 
 (* ------------------------------------------------------------------ base add_cell on a list with invalid entries *)
 
-(* halfface(h) for a possibly invalid handle: -1 % 2 != 0 and face_handle(-1) = 0, so -1 reads as halfface 1 *)
-Definition halfface_o (s : mesh) (o : option nat) : list nat :=
-  match o with Some h => halfface s h | None => halfface s 1 end.
-
 Definition cell_check_o (s : mesh) (hfs : list (option nat)) : bool :=
   match hfs with
   | [] => false
